@@ -659,3 +659,20 @@ Example C10_nonvacuous_merge_fill :
         [(B "x", OText (B "1")); (B "z", OText (B "3")); (B "y", OText (B "2"))]]
   /\ mf_subs_values [B "in_"] [(B "a_in_x", B "3"); (B "k", B "9"); (B "b_in_y", B ""); (B "c_in_z", B "4")] = [B "3"; B "4"].
 Proof. vm_compute. repeat split; try reflexivity; repeat constructor; cbn; intuition discriminate. Qed.
+
+(* ================================================================== step: the verb's own per-(group, field, stepper) state *)
+From Miller Require Import C10.ProofsStepCell.
+(* backward-looking steppers (window of one record): the state kept inside verb_step for (group k, value field f,
+   stepper `name`) is the per-cell run (the step_state / step_cell of the C10_step_* theorems above) over exactly the
+   events of f over the group's records, starting at the first record that carries f; other groups' records, other
+   fields and other steppers do not touch it *)
+Theorem C10_step_cell_sees_exactly_its_groups_events :
+  forall sps fs gs f sp name rs k,
+    NoDup fs -> In f fs -> NoDup (map snd sps) -> In (sp, name) sps ->
+    match oget k (s_run sps fs gs 0 rs) with Some g => cellst g f name | None => None end
+    = match drop_absent (map (get f) (members (group_key gs) k rs)) with
+      | [] => None
+      | evs => Some (step_state sp name f (stst0 sp) evs)
+      end.
+Proof. exact step_cell_state_is_step_state. Qed.
+Print Assumptions C10_step_cell_sees_exactly_its_groups_events.
